@@ -5,7 +5,8 @@ for pair in C03a:C05 C03b:C03 C03c:C03 C04a:C04 C05a:C05 C05b:C05 C06a:C06 C06b:
             C14a:C14 C14b:C14 C15a:C15 C15b:C15 C15c:C15 C17a:C17 C18a:C18 C18b:C18 \
             C03d:C03 C04b:C04 C05c:C05 C06d:C06 C06e:C06 C07b:C07 C09c:C09 C10c:C10 C14c:C14 C15d:C15 C17b:C17 C18c:C18 \
             C03e:C03 C04c:C04 C05d:C05 C06f:C06 C06g:C06 C07c:C07 C09d:C09 C10d:C10 C14d:C14 C15e:C15 C17c:C17 C18d:C18 \
-            C03f:C03 C04d:C04 C05e:C05 C06h:C06 C07d:C07 C09e:C09 C10e:C10 C14e:C14 C15f:C15 C17d:C17 C18e:C18; do
+            C03f:C03 C04d:C04 C05e:C05 C06h:C06 C07d:C07 C09e:C09 C10e:C10 C14e:C14 C15f:C15 C17d:C17 C18e:C18 \
+            C03g:C03 C04e:C04 C05f:C05 C06i:C06 C07e:C07 C09f:C09 C10f:C10 C14f:C14 C15g:C15 C17e:C17 C18f:C18; do
   case "$1" in ""|all) ;; *) case " $* " in *" ${pair%%:*} "*) ;; *) continue ;; esac ;; esac
   id=${pair%%:*}; prop=${pair##*:}
   tools/try_seed.sh "$id" "$prop" 2>&1 | grep "^seed=\|^VIOLATION" | cut -c1-200
